@@ -147,6 +147,7 @@ class Check:
         self.traces_validated = 0
         self.exhaustive = True
         self._known = None
+        self._required = []
 
     # ---- counting ------------------------------------------------------
     def count(self, key, n=1):
@@ -251,7 +252,10 @@ class Check:
         self.exhaustive = self.exhaustive and st["exhaustive"]
         for k, v in st.get("extra", {}).items():
             if isinstance(v, (int, float)) and isinstance(self.extra.get(k), (int, float)):
-                self.extra[k] += v
+                if k.startswith("max_"):
+                    self.extra[k] = max(self.extra[k], v)
+                else:
+                    self.extra[k] += v
             else:
                 self.extra.setdefault(k, v)
 
@@ -272,10 +276,10 @@ class Check:
 
     # ---- finishing -------------------------------------------------------
     def require_outcomes(self, cls, minimum):
-        n = len(self.outcomes.get(cls, ()))
-        if n < minimum:
-            raise Broken("vacuous: only %d distinct '%s' outcomes (need >= %d)"
-                         % (n, cls, minimum))
+        """non-vacuity requirement, evaluated in finish(): a run that reports a
+        violation is never turned into BROKEN by a collapsed outcome count (a
+        defect that makes everything raise also collapses the outcomes)."""
+        self._required.append((cls, minimum))
 
     def finish(self, exit_process=True):
         wall = time.time() - self.t0
@@ -295,7 +299,16 @@ class Check:
                 if not tiers or self.tier in tiers:
                     lines.append("NOTE: listed finding not observed on this run: "
                                  "property=%s signature=%s" % (self.pid, k))
-        rdir = os.path.join(common.VERIF_DIR, "replays")
+        if not new:
+            for cls, minimum in self._required:
+                n = len(self.outcomes.get(cls, ()))
+                if n < minimum:
+                    raise Broken("vacuous: only %d distinct '%s' outcomes (need >= %d)"
+                                 % (n, cls, minimum))
+        # runs against a scratch tree (VERIF_REPO) never touch the replays / evidence of /repo
+        scratch = common.REPO != "/repo"
+        rdir = os.path.join(common.VERIF_DIR, "replays", "scratch") if scratch else \
+            os.path.join(common.VERIF_DIR, "replays")
         os.makedirs(rdir, exist_ok=True)
         nrep = 0
         for k, v in new:
@@ -341,13 +354,28 @@ class Check:
                   level=self.level, coverage=cov, assumptions=self.assumptions,
                   wall_s=round(wall, 3), violations=len(new))
         if not self.child:
-            edir = os.path.join(common.VERIF_DIR, "evidence")
+            edir = os.path.join(common.VERIF_DIR, "evidence", "scratch") if scratch else \
+                os.path.join(common.VERIF_DIR, "evidence")
             os.makedirs(edir, exist_ok=True)
             tmp = os.path.join(edir, ".%s.json.tmp" % self.pid)
             with open(tmp, "w") as f:
                 json.dump(ev, f, indent=1, sort_keys=False)
             os.replace(tmp, os.path.join(edir, "%s.json" % self.pid))
             _validate_evidence(ev)
+        code = 1 if new else 0
+        try:
+            self._print_summary(lines, evaluations, distinct_out, cov, wall, new, known)
+        except BrokenPipeError:
+            pass
+        if exit_process:
+            try:
+                sys.stdout.flush()
+            except BrokenPipeError:
+                pass
+            sys.exit(code)
+        return code
+
+    def _print_summary(self, lines, evaluations, distinct_out, cov, wall, new, known):
         print("%s tier=%s seed=%d engine=%s evaluations=%d distinct_nontrivial=%d "
               "states=%d transitions=%d outcomes=%s exhaustive=%s wall=%.1fs"
               % (self.pid, self.tier, self.seed, self.engine, evaluations,
@@ -355,14 +383,10 @@ class Check:
                  distinct_out, cov["exhaustive"], wall))
         for ln in lines:
             print(ln)
-        code = 1 if new else 0
         print("%s RESULT: %s (new violations: %d, known findings observed: %d)"
               % (self.pid, "VIOLATED" if new else "HOLDS on everything explored",
                  len(new), len(known)))
         sys.stdout.flush()
-        if exit_process:
-            sys.exit(code)
-        return code
 
 
 def _validate_evidence(ev):
